@@ -4,6 +4,7 @@ import EaselModel.Gencode.NcbiTables
 import EaselModel.Gencode.Lemmas2
 import EaselModel.Gencode.OrfLemmas3
 import EaselModel.Gencode.OrfDecl2
+import EaselModel.Gencode.OrfOrder
 import EaselModel.Alphabet.Iupac
 /-! # C17 — property theorems (statements + glue only; lemmas live in Gencode/*.lean)
 
@@ -169,6 +170,18 @@ theorem orf_frame_declarative (nt aa : Alphabet) (g : Gencode) (cfg : Cfg) (hn :
         (p0 + (((itemsFrom nt aa g dir p0 d).length + (k + 3 - (itemsFrom nt aa g dir p0 d).length % 3) % 3 : Nat) : Int) * dir - dir)
         (sub k 0 (itemsFrom nt aa g dir p0 d))).reverse :=
   frameOrfs_declarative nt aa g cfg hn hT dir p0 d k
+
+/-- numbering and order of the records: those a strand adds to the output block are numbered consecutively from
+    `orfcount + 1` in emission order ("orf1", "orf2", …, continuing over strands and sequences), and their end coordinates
+    advance strictly in reading direction. Together with `orf_stream_eq_spec` this determines the output list: the
+    three per-frame lists merged by end coordinate. -/
+theorem orf_numbering_and_order (nt aa : Alphabet) (g : Gencode) (cfg : Cfg) (hn : NtOK nt) (hg : CodeOK g) (w0 : Work)
+    (isRev : Bool) (d : List Nat) (hv : ∀ x ∈ d, x < nt.Kp) (k : Nat) (ks : List Nat) (hk : 2 ≤ k)
+    (hs : (k :: ks).sum = d.length) :
+    ∃ w' news, runStrand nt aa g cfg w0 isRev d (k :: ks) = some w' ∧
+      w'.c.out.map numStop = news ++ w0.c.out.map numStop ∧ w'.c.orfcount = w0.c.orfcount + news.length ∧
+      ∃ ub, Chain (dirOf isRev) w0.c.orfcount ub news :=
+  runStrand_order nt aa g cfg hn hg w0 isRev d hv k ks hk hs
 
 /-- every built-in table under every initiator setting satisfies the hypothesis `TableOK` of `orf_frame_declarative`
     (no initiator codon is a stop; M and X are not the stop code) -/
